@@ -394,9 +394,16 @@ def job_torch_ops(tier, rng):
     # Knill-Laflamme inner product Function
     bad = None; cnt = 0
     import numqi.qec._internal as qi
-    for n, K in [(3, 2), (4, 2), (3, 4)]:
+    for n, K in [(3, 2), (4, 2), (3, 4), (3, -2), (2, -2)]:
         try:
-            err = qi.make_error_list(n, 2)
+            if K > 0:
+                err = qi.make_error_list(n, 2)
+            else:
+                # error terms with several NON-COMMUTING factors (two operators on the same qubit, overlapping two-qubit operators): the adjoint must reverse the order
+                K = -K
+                Gm = numqi.gate
+                A2 = _rc(rng, 4, 4); B1 = _rc(rng, 2, 2)
+                err = [[((0,), np.asarray(Gm.X, dtype=complex)), ((0,), np.asarray(Gm.Z, dtype=complex))], [((0,), B1), ((0, 1), A2)], [((1,), np.asarray(Gm.Y, dtype=complex)), ((0, 1), A2), ((1,), B1)]]
             q = _rc(rng, K, 2 ** n)
             qt = torch.tensor(q, dtype=torch.complex128, requires_grad=True)
             val = qi.knill_laflamme_inner_product(qt, err)
